@@ -446,6 +446,7 @@ def run(ctx):
     r5 = chk.rule("R5-non-ascii-text-is-rejected", "Base64::decode narrows chars with `as u8`; it must therefore either test is_ascii or bound its char-indexed loop by the BYTE length of the text (a multi-byte character then makes chars().nth(i) run out and return Err)", floor=1)
     dfn = F.fns.get("core::base64::Base64::decode")
     if dfn is not None:
+        dfn = ctx.inl(dfn)       # the narrowing cast may sit in a private helper (next_sequence ..)
         ddu_ = du_of(dfn)
         dcfg_ = cfg_of(dfn)
         narrowing = [s for b in dfn.blocks if not b["cleanup"] for s in b["stmts"] if s["k"] == "assign" and s["rv"]["k"] == "cast" and s["rv"].get("from") == "char" and s["rv"].get("to") == "u8"]
